@@ -522,6 +522,17 @@ def run_check(prop, tier, seed, meta, instances, build, level='model_checking', 
     order = sorted(instances, key=lambda i: -i.timeout)
     with ThreadPoolExecutor(JOBS) as ex:
         results = list(ex.map(lambda i: rn.run(i, i.name in wit), order))
+    # a time-out under load says nothing about the code: non-optional instances without a verdict get one more run, alone (4 at a time)
+    # and with twice the budget, before they are reported as inconclusive
+    redo = [r['name'] for r in results if r['status'] == 'INCONCLUSIVE' and not byname[r['name']].optional and 'timeout' in (r.get('detail') or '')]
+    if redo and len(redo) <= 24:
+        for n in redo:
+            byname[n].timeout *= 2
+        with ThreadPoolExecutor(4) as ex:
+            again = {r['name']: r for r in ex.map(lambda n: rn.run(byname[n], n in wit), redo)}
+        for r in again.values():
+            r['retried'] = True
+        results = [again.get(r['name'], r) for r in results]
     violations, knownhits, broken = [], [], []
     replay_root = os.path.join(VERIF, 'replays', prop)
     shutil.rmtree(replay_root, ignore_errors=True)
